@@ -57,6 +57,11 @@ func runC18(c *Ctx) {
 			spelled[i] = "basic"
 		}
 	}
+	// the order in which the mechanisms are listed means nothing
+	for i := len(spelled) - 1; i > 0; i-- {
+		j := c.T.Choose(i + 1)
+		spelled[i], spelled[j] = spelled[j], spelled[i]
+	}
 	cfg := env.BaseConfig()
 	cfg.Authentication = spelled
 	cfg.OmitKeys = map[string]bool{}
@@ -64,7 +69,17 @@ func runC18(c *Ctx) {
 	d = append(d, "auth="+strings.Join(spelled, "+"))
 	// TLS
 	tlsOff := c.T.Bool(1, 2) || keyFocus
-	if tlsOff {
+	tlsSpelling := ""
+	if tlsOff && !keyFocus && c.T.Bool(1, 5) {
+		// a spelling that is not the keyword: TLS is then not disabled (certificates are
+		// given), and whatever the gateway makes of it, it must not end up serving local
+		// authentication without TLS
+		tlsSpelling = []string{"Disable", "DISABLE", "disabled", "Disabled", "off"}[c.T.Choose(5)]
+		tlsOff = false
+		cfg.TLS = tlsSpelling
+		cfg.CertFile, cfg.KeyFile = c.W.WriteTLSFiles()
+		d = append(d, "tls-spelled="+tlsSpelling)
+	} else if tlsOff {
 		cfg.TLS = "disable"
 	} else {
 		cfg.TLS = ""
@@ -177,9 +192,46 @@ func runC18(c *Ctx) {
 	}
 	sort.Strings(why)
 	c.W.NewIdP()
+	// fault: no entropy while the instance starts and has keys to substitute
+	entropyFault := len(why) == 0 && (paaLen != "32" || sessLen != "32") && c.T.Bool(1, 5)
+	if entropyFault {
+		cfg.EntropyFault = true
+		d = append(d, "no-entropy-at-boot")
+	}
 	g := c.W.Boot(cfg)
+	cfg.EntropyFault = false
 	descr := strings.Join(d, " ")
 	c.Res.CaseKey = descr
+	if has("local") && !g.Exited && g.Server != nil && !g.TLS {
+		c.S.Fail("C18", "local-authentication-served-without-tls", "%s: the gateway serves local (basic) authentication over plain HTTP", descr)
+		return
+	}
+	if entropyFault {
+		// fresh random keys cannot be made: the only compliant outcomes are not to run, or to
+		// run without issuing anything that depends on a substituted key
+		outcome := "exited"
+		if !g.Exited && g.Server != nil {
+			outcome = "serves"
+			if has("openid") && tokenAuth && (mode == "" || mode == "roundrobin") && !g.TLS {
+				b := c.W.NewBrowser("b1", "10.2.0.5:51000")
+				ok, _ := b.Login("/connect", &env.IdPUser{Sub: "alice", Claims: map[string]any{"preferred_username": "alice"}})
+				if ok && sessLen != "32" {
+					c.S.Fail("C18", "keys-substituted-without-entropy:session", "%s: the secure random source failed while the instance started, yet it runs sessions under substituted keys (a login succeeded)", descr)
+					return
+				}
+				if ok {
+					if fr := b.Get("/connect"); gotFile(fr) && paaLen != "32" {
+						c.S.Fail("C18", "keys-substituted-without-entropy:signing", "%s: the secure random source failed while the instance started, yet it issues tokens under a substituted signing key", descr)
+						return
+					}
+				}
+				outcome = "serves, nothing issued under a substituted key"
+			}
+		}
+		c.Res.Reach = true
+		c.Samplef("%s => %s", descr, outcome)
+		return
+	}
 	if len(why) > 0 {
 		c.S.Count("probe.config_must_be_refused")
 		if !g.Exited {
